@@ -294,18 +294,18 @@ func c20Body(c *ev.Ctx) {
 				defer wg.Done()
 				defer func() { <-sem }()
 				sc := c20Scenario{Mode: mode, Reqs: sq}
-				setup, body, check := c20Run(c, &sc, &tallies)()
-				s := vsched.Run(vsched.Config{MaxSteps: 2000000}, setup, body)
-				vhttp.Uninstall(s)
-				f := s.Fail
-				if f == nil {
-					f = check(s)
+				// one schedule (sequential clients), but every single environment deviation
+				// (a server deadline passing, if the tree under check sets one) is explored
+				e := &vsched.Explorer{Bound: 0, MaxSteps: 2000000, Workers: 1, NewRun: c20Run(c, &sc, &tallies), AfterRun: vhttp.Uninstall, MaxChoiceDev: 1,
+					Filter: func(p *vsched.Point, alt int) bool { return strings.HasPrefix(p.Label, "choose:") }}
+				e.OnFailure = func(choices []int, s *vsched.Sched, f *vsched.Failure) {
+					rs := sc
+					rs.Choices = choices
+					c.Violation("sequential|"+mode+"|"+seqKey(sq), f.Kind+": "+f.Msg, rs)
 				}
-				atomic.AddInt64(&execs, 1)
-				atomic.AddInt64(&trans, int64(len(sq)))
-				if f != nil {
-					c.Violation("sequential|"+mode+"|"+seqKey(sq), f.Kind+": "+f.Msg, sc)
-				}
+				e.Explore()
+				atomic.AddInt64(&execs, e.Execs)
+				atomic.AddInt64(&trans, int64(len(sq))*e.Execs)
 			}(sq)
 		}
 		wg.Wait()
@@ -345,8 +345,9 @@ func c20Body(c *ev.Ctx) {
 		var mu sync.Mutex
 		nfail := 0
 		e := &vsched.Explorer{Bound: jb.bound, Fine: true, UseKeys: false, CountOnly: true, MaxSteps: 2000000, Workers: 1 /* one execution at a time: the code under test may (wrongly) hold package-level state, which parallel executions in one process would share */, Deadline: c.Deadline, NewRun: c20Run(c, &sc, nil), AfterRun: vhttp.Uninstall,
+			MaxChoiceDev: 1,
 			Filter: func(p *vsched.Point, alt int) bool {
-				return strings.HasPrefix(p.Running, "conn-") && strings.HasPrefix(p.Enabled[alt], "conn-")
+				return strings.HasPrefix(p.Label, "choose:") || (strings.HasPrefix(p.Running, "conn-") && strings.HasPrefix(p.Enabled[alt], "conn-"))
 			}}
 		e.OnFailure = func(choices []int, s *vsched.Sched, f *vsched.Failure) {
 			if f.Kind == "replay-divergence" {
